@@ -434,6 +434,8 @@ class Result:
         self.crash_case = None
         self.crash_msg = ""
         self.xpairs = []          # (case, model, spec) sample for the in-Coq cross-check
+        self.xrich = 0
+        self.nontrivial_seen = 0
 
 
 def correspondence(fam, tier, seed, nshards, nontrivial, extra=None, classify=None, sample_every=997, spec_matches=None):
@@ -500,9 +502,17 @@ def correspondence(fam, tier, seed, nshards, nontrivial, extra=None, classify=No
                 if "\t" in model:
                     model, spec = model.split("\t", 1)
                 res.evaluations += 1
-                if (res.evaluations % 499 == 7 or (i == 0 and res.evaluations <= 40)) and len(res.xpairs) < 1500:
-                    res.xpairs.append((case, model, spec))
                 op = case.split(" ", 1)[0]
+                nt = nontrivial(case, impl)
+                if nt:
+                    res.nontrivial_seen += 1
+                # sample for the in-Coq cross-check: every 499th case and the first 40; the first 10 of every kind of
+                # case line; every 61st non-trivial case (at most 500) - a run that is mostly rejected inputs, or whose
+                # kinds come in blocks, would otherwise offer hardly any rich case
+                rich = (nt and res.nontrivial_seen % 61 == 5 and res.xrich < 500) or res.stats.get(op, 0) < 10
+                if (res.evaluations % 499 == 7 or (i == 0 and res.evaluations <= 40) or rich) and len(res.xpairs) < 2000:
+                    res.xpairs.append((case, model, spec))
+                    res.xrich += 1 if rich else 0
                 res.stats[op] = res.stats.get(op, 0) + 1
                 if impl != model:
                     if len(res.mismatches) < 2000:
@@ -510,7 +520,7 @@ def correspondence(fam, tier, seed, nshards, nontrivial, extra=None, classify=No
                 elif spec and (not spec_matches(model, spec) if spec_matches else spec != model):
                     if len(res.spec_mismatches) < 200:
                         res.spec_mismatches.append((case, impl, model, spec))
-                if nontrivial(case, impl):
+                if nt:
                     res.distinct.add(hashlib.blake2b(case.encode(), digest_size=8).digest())
                 if res.evaluations % sample_every == 1 and len(res.samples) < 12:
                     res.samples.append({"case": case, "impl": impl, "model": model, **({"spec": spec} if spec else {})})
